@@ -557,9 +557,9 @@ def run(ctx):
             case(8, n, 0, o["d"], "", {"fn": "sec2dhms", "n": n})
             case(9, n, 0, o["h"], "", {"fn": "sec2hms", "n": n})
             dh_texts.append((o["d"], o["h"]))
-            if n > -2 ** 63:
-                if o["d"] != ref_sec2dhms(n) or o["h"] != ref_sec2hms(n):
-                    bad("sec2dhms-text", input=n, observed=[o["d"], o["h"]], expected=[ref_sec2dhms(n), ref_sec2hms(n)])
+            if o["d"] != ref_sec2dhms(n) or o["h"] != ref_sec2hms(n):  # every int64, -2**63 included (repaired c11aaec5f)
+                bad("dhms-roundtrip-minint64" if n == -2 ** 63 else "sec2dhms-text", input=n, observed=[o["d"], o["h"]], expected=[ref_sec2dhms(n), ref_sec2hms(n)],
+                    how="mlr -n put 'end{print sec2dhms(%d) . \" \" . sec2hms(%d)}'" % (n, n))
             if o["bd"] != ns or o["bh"] != ns:
                 bad("dhms-roundtrip-minint64" if n == -2 ** 63 else "dhms-roundtrip", input=n, observed={"sec2dhms": o["d"], "dhms2sec": o["bd"], "sec2hms": o["h"], "hms2sec": o["bh"]}, expected=ns,
                     how="mlr -n put 'end{print dhms2sec(sec2dhms(%d))}'" % n)
